@@ -96,14 +96,17 @@ partial def resolveVE (cx : Ctx) (used : Used) : J → VE × Used
   | .str "M" => (.atom .missing, used)
   | .int i => (.atom (.int i), used)
   | .arr [.str "s", .int n] => (.atom (.str n.natAbs), used)
-  | .arr [.str "q"] => (.atom (.opaque 0), used)
+  | .arr [.str "q"] => (.fresh, used)
   | .arr [.str "r", .int n] =>
     match pickNode cx.nodes n.natAbs with
     | some (.node m its) =>
       let diverges := match cx.target.bind Tree.id? with
-        | some t => m.parent.isNone && (Tree.node m its).ids.contains t
+        | some t => m.parent.isNone &&
+            (chainFrom cx.f (cx.f.ids.length + 1) t).any (fun c => (Tree.node m its).ids.contains c)
         | none => false
       if used.contains m.id || (diverges && !cx.unsafeRefs) then (.atom .none, used)
+      -- a parentless node will be moved: its whole subtree is then out of reach for this call
+      else if m.parent.isNone then (.ref m.id, (Tree.node m its).ids ++ used)
       else (.ref m.id, m.id :: used)
     | _ => (.atom .none, used)
   | .arr [.str "d", fl, .arr kvs] =>
@@ -134,7 +137,7 @@ partial def resolveVE (cx : Ctx) (used : Used) : J → VE × Used
         let r := resolveVE cx acc.2 v
         (acc.1 ++ [(key, r.1)], r.2)
       | _ => acc) ([], used)
-    (.node (.obj cls) s a p items, used')
+    (.node (.obj cls) s true p items, used')
   | _ => (.atom .none, used)
 
 def resolveVEs (cx : Ctx) (used : Used) (js : List J) : List VE × Used :=
@@ -149,6 +152,12 @@ partial def resolvePath (cur : Option Tree) : List J → List Key
       | some t => t.query [k]
       | none => none
     k :: resolvePath next rest
+
+/-- F32 guard: an existing child of list `dest` is not offered as an insertion into `dest`. -/
+def dropOwn (f : Forest) (cx : Ctx) (dest : Nat) (v : VE) : VE :=
+  match v with
+  | .ref id => if !cx.unsafeRefs && (f.metaOf? id).any (fun m => m.parent == some dest) then .atom .none else v
+  | _ => v
 
 def resolveOp (f : Forest) (j : J) : Option Op :=
   let nodes := f.nodes
@@ -178,7 +187,7 @@ def resolveOp (f : Forest) (j : J) : Option Op :=
       some (.setItem t (Key.s (natOf (j.getD "key" (.int 0)) % (cls + 2))) (v "v"))
     | "ddel" | "ldel" => some (.delItem t (resolveKey target (j.getD "key" .null)))
     | "lappend" => some (.lAppend t (v "v"))
-    | "linsert" => some (.lInsert t (resolveIdx target (j.getD "key" .null)) (v "v"))
+    | "linsert" => some (.lInsert t (resolveIdx target (j.getD "key" .null)) (dropOwn f cx t (v "v")))
     | "lextend" | "liadd" => some (.lExtend t (vs "vs"))
     | "lpop" => some (.lPop t (resolveIdx target (j.getD "key" .null)))
     | "lremove" => some (.lRemove t (.int ((j.getInt? "a").getD 0)))
@@ -189,7 +198,7 @@ def resolveOp (f : Forest) (j : J) : Option Op :=
       let ranks := (List.range tt.items.length).map (fun i => raw[i % raw.length]?.getD 0)
       some (.lSort t ranks ((j.getBool? "rev").getD false))
     | "lreverse" => some (.lReverse t)
-    | "limul" => some (.lIMul t ((j.getInt? "n").getD 0))
+    | "limul" => some (.lIMul t ((j.getInt? "times").getD 0))
     | "lslice" =>
       -- clamp like `_parse_slice` for a positive step, and never let stop fall below start
       let clamp (x : Int) : Int := let y := max (-len) (min len x); if y < 0 then y + len else y
@@ -197,7 +206,7 @@ def resolveOp (f : Forest) (j : J) : Option Op :=
       let stop0 := clamp (resolveIdx target (j.getD "b" .null))
       let stop := max start stop0
       let stp : Int := max 1 ((j.getInt? "step").getD 1)
-      let vals := vs "vs"
+      let vals := (vs "vs").map (dropOwn f cx t)
       let size := ((stop - start + stp - 1) / stp).toNat
       -- extended slices: sizes must match
       let vals := if stp > 1 then (vals.take size ++ List.replicate (size - vals.length) (VE.atom .none)) else vals
@@ -229,7 +238,10 @@ def resolveOp (f : Forest) (j : J) : Option Op :=
               | _ => [Key.i 0]) else path
           if path.isEmpty || acc.1.any (fun x => x.1 == path) then acc else
           let r := resolveVE cx acc.2 val
-          (acc.1 ++ [(path, ins, r.1)], r.2)
+          let dest := match tt.query path.dropLast with
+            | some (.node pm _) => pm.id
+            | _ => t
+          (acc.1 ++ [(path, ins, if ins then dropOwn f cx dest r.1 else r.1)], r.2)
         | _ => acc) ([], [])
       let skip := match j.get? "skip" with | some (.bool b) => some b | _ => none
       some (.rebind t pairs skip)
@@ -241,7 +253,8 @@ def cfgOf (j : J) : Cfg :=
   | _ =>
     { reindexOnMutate := (j.getBool? "f03").getD true,
       reindexOnReorder := (j.getBool? "f02").getD true,
-      listCloneSealed := (j.getBool? "f17").getD true }
+      listCloneSealed := (j.getBool? "f17").getD true,
+      detachOnRemove := (j.getBool? "f33").getD true }
 
 def outcomeToJ : Outcome → J
   | .ok => .str "ok"
@@ -261,7 +274,8 @@ def runHistory (cfg : Cfg) (ops : List J) : List J :=
       | some op =>
         let r := stepA cfg f notifyOn op
         let rec' := J.obj [("out", outcomeToJ r.out), ("dump", forestToJ r.forest),
-                           ("wf", .bool r.forest.wf), ("adm", .bool (Admissible cfg f notifyOn op))]
+                           ("wf", .bool r.forest.wf), ("aliased", .bool r.forest.aliased), ("adm", .bool (Admissible cfg f notifyOn op)),
+                           ("rop", .str (reprStr op))]
         if r.out == .diverges then (rec' :: acc).reverse else go r.forest rest (rec' :: acc)
   go Forest.empty ops []
 
